@@ -138,3 +138,8 @@ package actionlint
 //@ func NewRuleShellcheck
 //@   props C20
 //@   at_call (*concurrentProcess).newCommandRunner: !combineOutput
+
+// C15: whatever was collected for a file - diagnostics of the rules or of a failed parse - goes through
+// the ignore filter before it is returned
+//@ func (*Linter).check
+//@   body_calls [C15] (*Linter).filterErrors iff result1 == nil
